@@ -13,7 +13,7 @@ import ast
 from typing import Dict, List, Optional, Set, Tuple
 
 from ..cfg import enumerate_paths, Path, RETURN, RAISE, FALL
-from ..index import (AnalysisError, ClassInfo, FuncInfo, ProgramIndex, body_without_docstring, call_name, calls_in, chain,
+from ..index import (AnalysisError, ClassInfo, External, FuncInfo, ProgramIndex, body_without_docstring, call_name, calls_in, chain,
                      const_str, is_super_call, norm, src, walk_no_nested)
 from ..report import Report
 
@@ -319,6 +319,33 @@ def check_getitem(idx: ProgramIndex, rep: Report):
     handles_tensor = any(isinstance(c, ast.Call) and (chain(c.func) or "").split(".")[-1] in ("where", "remainder", "is_tensor") for c in calls_in(ni.node)) or "%" in src(ni.node)
     rep.add("C11-2", MOD + ":_normalize_index[tensors]", ni.where, handles_tensor,
             "index tensors are normalised elementwise" if handles_tensor else "_normalize_index handles ints only; index tensors with negative entries are not normalised", {})
+    # boolean masks: mean[idx] accepts them, the covariance position arithmetic (row * num_cols + col, meshgrid) would read them as 0/1.
+    # On the path where the index is tested to be a mask the result has to be the positions it selects (nonzero / where(mask) / argwhere).
+    from ..symbolic import inline as _inl, walk_paths as _wp
+    ip = ni.params[0]
+    mask_paths, bad_mask = 0, []
+    for path, seq in _wp(ni):
+        if path.outcome != RETURN or path.end is None or getattr(path.end, "value", None) is None:
+            continue
+        tests = [(s_.node, s_.truth) for s_, _e in seq if getattr(s_, "kind", "") == "assume"]
+        is_mask = any(("torch.bool" in src(t_) or "is_floating_point" in src(t_) or "bool" in src(t_)) and "dtype" in src(t_) and
+                      ((tr and "==" in src(t_)) or (not tr and "!=" in src(t_))) for t_, tr in tests)
+        if not is_mask:
+            continue
+        mask_paths += 1
+        env = seq[-1][1] if seq else {}
+        for st, e_ in seq:
+            if st is path.end:
+                env = e_
+        rv = _inl(path.end.value, env)
+        conv = any(isinstance(c, ast.Call) and ((isinstance(c.func, ast.Attribute) and c.func.attr in ("nonzero", "argwhere")) or
+                                                 ((chain(c.func) or "") in ("torch.where", "torch.nonzero", "torch.argwhere") and len(c.args) == 1)) for c in ast.walk(rv))
+        if not conv:
+            bad_mask.append("on the boolean-mask path `%s` is returned: the mask enters the position arithmetic as 0/1" % " ".join(src(rv).split())[:50])
+    ok_mask = mask_paths > 0 and not bad_mask
+    rep.add("C11-2", MOD + ":_normalize_index[boolean masks]", ni.where, ok_mask,
+            "a boolean mask is replaced by the positions it selects before any arithmetic" if ok_mask else
+            ("; ".join(bad_mask) if bad_mask else "_normalize_index does not tell boolean masks from integer index tensors: row_idx * num_cols + col_idx reads True/False as 1/0, so the covariance belongs to other entries than mean[idx]"), {"mask_paths": mask_paths})
 
 
 def _is_cov_base(e: ast.AST, cov: str) -> bool:
@@ -563,6 +590,32 @@ def check_layout(idx: ProgramIndex, rep: Report):
                     ok = "interleaved" in kw and src(kw["interleaved"]) == "self._interleaved"
                     rep.add("C11-3", inst, "%s:%d" % (fi.module.relpath, c.lineno), ok, "layout flag propagated" if ok else "a MultitaskMultivariateNormal is rebuilt from self's covariance without interleaved=self._interleaved", {})
     rep.floor("C11-3", "re-construction sites", n_sites, 5)
+    # inherited re-construction: a base-class method that MultitaskMultivariateNormal does not override and that rebuilds the result with
+    # self.__class__(mean, covariance) runs the multitask constructor with its default interleaved=True, whatever self's layout is
+    n_inh = 0
+    for base in cls.mro()[1:]:
+        if isinstance(base, External) or not base.module.name.startswith(idx.package):
+            continue
+        for mname, fi in base.methods.items():
+            if mname in cls.methods or mname == "__init__":
+                continue
+            if cls.lookup(mname) is not fi:
+                continue
+            for c in calls_in(fi.node):
+                f = src(c.func)
+                if f not in ("self.__class__", "type(self)", "self.__class__.__new__"):
+                    continue
+                if f.endswith("__new__"):
+                    continue
+                n_inh += 1
+                inst = "%s:%s.%s[inherited %s(...)]" % (base.module.name, base.name, mname, f)
+                rep.add("C11-3", inst, "%s:%d" % (fi.module.relpath, c.lineno), False,
+                        "%s.%s is inherited by MultitaskMultivariateNormal and rebuilds its result with %s(mean, covariance): the multitask constructor runs with the default interleaved=True (and expects the n x t mean), so for a task-major distribution the result denotes a different joint Gaussian" % (base.name, mname, f), {})
+        # hook methods: a construction hook that the multitask class overrides must be what the base methods use
+    hooks = [m for m, fi in cls.methods.items() if any(src(c.func) in ("self.__class__", "type(self)") and any(k.arg == "interleaved" for k in c.keywords) for c in calls_in(fi.node))
+             and any(m in b.methods for b in cls.mro()[1:] if not isinstance(b, External))]
+    rep.add("C11-3", MOD + ":MultitaskMultivariateNormal[inherited re-construction]", cls.where, True,
+            "%d inherited method(s) rebuild the result directly; construction hook(s) overridden with the layout flag: %s" % (n_inh, ", ".join(sorted(hooks)) or "none"), {"hooks": sorted(hooks)})
     # from_batch_mvn: the covariance is BlockInterleaved over task_dim (the block dimension is *removed* from the batch dimensions,
     # the others keep their order) with the default interleaved flag; the mean must undergo the same move: axis order
     # [batch dims without task_dim ..., data, task].  Decided in the axis-order domain for every rank n <= 6 and every task_dim.
